@@ -66,6 +66,10 @@ type Result struct {
 // Check is one property's explorer.
 type Check struct {
 	ID       string
+	Property string // property id reported for violations (default: ID)
+	// Companion names a check that only exists in the map-order-controlled build of jdmc
+	// (JDMC_ORD_BIN); its shards are run after the main ones and merged into this evidence.
+	Companion string
 	Rule     string // how cases are enumerated / what makes one non-trivial
 	Bounds   func(tier string) map[string]interface{}
 	Enum     func(tier string, e *Emitter)
@@ -370,6 +374,8 @@ func (f *Finding) Matches(property string, v *Violation) bool {
 
 type ReplayFile struct {
 	Property string `json:"property"`
+	Check    string `json:"check,omitempty"` // engine check id if different from the property (companion checks)
+	Binary   string `json:"binary,omitempty"`
 	Case     Case   `json:"case"`
 	Msg      string `json:"msg"`
 }
@@ -423,7 +429,51 @@ func Coordinate(self string, ck *Check, tier string, seed int64, verifDir string
 	}
 	wg.Wait()
 
+	// companion shards from the map-order-controlled build, if it could be built
+	ordBin := os.Getenv("JDMC_ORD_BIN")
+	mapOrderControl := false
+	companionNote := ""
+	var compOuts []*WorkerOut
+	if ck.Companion != "" {
+		if ordBin == "" {
+			companionNote = "map-order-controlled build not available: order leg skipped"
+		} else if _, err := os.Stat(ordBin); err != nil {
+			companionNote = "map-order-controlled build failed (see build log): order leg skipped"
+		} else {
+			comp := &Check{ID: ck.Companion}
+			compOuts = make([]*WorkerOut, nworkers)
+			compErrs := make([]string, nworkers)
+			var wg2 sync.WaitGroup
+			for i := 0; i < nworkers; i++ {
+				wg2.Add(1)
+				go func(i int) {
+					defer wg2.Done()
+					compOuts[i], compErrs[i] = runShard(ordBin, comp, tier, i, nworkers, seed, deadline, work, "")
+				}(i)
+			}
+			wg2.Wait()
+			mapOrderControl = true
+			for i, o := range compOuts {
+				if o == nil {
+					mapOrderControl = false
+					companionNote += fmt.Sprintf("order-leg shard %d failed: %s; ", i, compErrs[i])
+				}
+			}
+		}
+	}
+
 	merged := &WorkerOut{Hist: map[string]uint64{}, LegHist: map[string]uint64{}, Known: map[string]uint64{}, Complete: true}
+	companionViolation := map[uint64]bool{}
+	for _, o := range compOuts {
+		if o == nil {
+			continue
+		}
+		for i := range o.Violations {
+			companionViolation[o.Violations[i].Case.Hash()] = true
+		}
+		outs = append(outs, o)
+		errs = append(errs, "")
+	}
 	engineErr := ""
 	for i, o := range outs {
 		if o == nil {
@@ -433,10 +483,10 @@ func Coordinate(self string, ck *Check, tier string, seed int64, verifDir string
 		if errs[i] != "" {
 			engineErr += fmt.Sprintf("shard %d: %s\n", i, errs[i])
 		}
-		if merged.Generated != 0 && o.Generated != merged.Generated && o.Complete {
+		if merged.Generated != 0 && o.Generated != merged.Generated && o.Complete && i < nworkers {
 			engineErr += fmt.Sprintf("shard %d walked %d enumeration units, another shard %d: the enumeration is not deterministic\n", i, o.Generated, merged.Generated)
 		}
-		if o.Complete {
+		if o.Complete && i < nworkers {
 			merged.Generated = o.Generated // every worker walks the whole space
 		}
 		merged.Evaluations += o.Evaluations
@@ -518,8 +568,15 @@ func Coordinate(self string, ck *Check, tier string, seed int64, verifDir string
 			break
 		}
 		c := v.Case
-		r1 := safeRun(ck, &c)
-		r2 := safeRun(ck, &c)
+		var r1, r2 Result
+		isComp := companionViolation[c.Hash()] && strings.HasPrefix(c.Kind, "c15ord")
+		if isComp {
+			r1.Violation = externalReplay(ordBin, ck.ID, ck.Companion, &v, work)
+			r2.Violation = externalReplay(ordBin, ck.ID, ck.Companion, &v, work)
+		} else {
+			r1 = safeRun(ck, &c)
+			r2 = safeRun(ck, &c)
+		}
 		if strings.HasPrefix(v.Msg, "hang:") || strings.HasPrefix(v.Msg, "worker process died") {
 			// cannot be re-executed in-process safely; report as is
 		} else if r1.Violation == "" || r1.Violation != r2.Violation {
@@ -528,6 +585,9 @@ func Coordinate(self string, ck *Check, tier string, seed int64, verifDir string
 		}
 		os.MkdirAll(replayDir, 0755)
 		rf := ReplayFile{Property: ck.ID, Case: v.Case, Msg: v.Msg}
+		if isComp {
+			rf.Check, rf.Binary = ck.Companion, "jdmc-ord"
+		}
 		b, _ := json.MarshalIndent(rf, "", " ")
 		name := fmt.Sprintf("%x.json", sha1.Sum(b))[:16] + ".json"
 		path := filepath.Join(replayDir, name)
@@ -598,6 +658,8 @@ func Coordinate(self string, ck *Check, tier string, seed int64, verifDir string
 			"known_findings_seen":           knownList,
 			"workers":                       nworkers,
 			"engine_error":                  engineErr,
+			"map_order_control":             mapOrderControl,
+			"map_order_note":                companionNote,
 			"states_meaning":                "distinct initial states (concrete cases: documents, option set, diff/patch program, target, history) explored; every one is executed on the real code",
 			"transitions_meaning":           "library / CLI operations executed on the implementation across all cases",
 		},
@@ -718,4 +780,19 @@ func tail(s string, n int) string {
 		return s[len(s)-n:]
 	}
 	return s
+}
+
+// externalReplay re-executes one case in another build of jdmc and returns its violation text.
+func externalReplay(bin, property, check string, v *Violation, work string) string {
+	rf := ReplayFile{Property: property, Check: check, Case: v.Case, Msg: v.Msg}
+	b, _ := json.Marshal(rf)
+	path := filepath.Join(work, fmt.Sprintf("ext-%x.json", sha1.Sum(b)))
+	os.WriteFile(path, b, 0644)
+	out, _ := exec.Command(bin, "replay", path).CombinedOutput()
+	s := string(out)
+	i := strings.Index(s, "  why: ")
+	if i < 0 {
+		return ""
+	}
+	return strings.TrimSpace(s[i+len("  why: "):])
 }
